@@ -404,6 +404,10 @@ func loadView(ctx context.Context, scope *ReferenceScope, tableExpr parser.Query
 		}
 
 		if view.FileInfo != nil {
+			// The result of the subquery may still refer to the FileInfo of a
+			// cached table. Do not change that one.
+			fileInfo := *view.FileInfo
+			view.FileInfo = &fileInfo
 			view.FileInfo.ViewType = ViewTypeInlineTable
 		}
 	}
